@@ -209,14 +209,15 @@ package replicator
 //@ noeffect (berty.tech/go-orbit-db/stores/replicator.storeInterface).SortFn
 //@ noeffect (berty.tech/go-orbit-db/stores/replicator.storeInterface).IO
 //@ func (*replicator).processHash
-//@   props C04 C10 C11
+//@   props C04 C10 C11 C03
+//@   safety C10 C11
 //@   flag nilcalls
 //@   requires r.store != nil && item != nil && r.logger != nil
 //@   ghost B0 := r.buffer
 //@   loop 1 invariant r.buffer == B0
-//@   loop 1 invariant @C04 forall j Int :: 0 <= j && j < $i ==> ptr($coll[j], "entry.Entry").LogID == logID(boxptr(l, "berty.tech/go-ipfs-log.IPFSLog"))
+//@   loop 1 invariant @C04 @C03 forall j Int :: 0 <= j && j < $i ==> ptr($coll[j], "entry.Entry").LogID == logID(boxptr(l, "berty.tech/go-ipfs-log.IPFSLog"))
 //@   ensures result1 != nil ==> r.buffer == B0
 //@   ensures r.buffer == B0 || (len(r.buffer) == len(B0) + 1 && (forall j Int :: 0 <= j && j < len(B0) ==> r.buffer[j] == B0[j]))
 //@   ensures len(r.buffer) == len(B0) + 1 ==> result1 == nil && logLen(r.buffer[len(B0)]) > 0 && prov(r.buffer[len(B0)]) == 1 && logID(r.buffer[len(B0)]) == logID(stLog(r.store)) && acOf(r.buffer[len(B0)]) == stAC(r.store)
-//@   ensures @C04 len(r.buffer) == len(B0) + 1 ==> (forall j Int :: 0 <= j && j < len(valsOf(r.buffer[len(B0)])) ==> ptr(valsOf(r.buffer[len(B0)])[j], "entry.Entry").LogID == logID(r.buffer[len(B0)]))
+//@   ensures @C04 @C03 len(r.buffer) == len(B0) + 1 ==> (forall j Int :: 0 <= j && j < len(valsOf(r.buffer[len(B0)])) ==> ptr(valsOf(r.buffer[len(B0)])[j], "entry.Entry").LogID == logID(r.buffer[len(B0)]))
 //@   modifies r.buffer
